@@ -149,28 +149,35 @@ def tile(vc):
         vc.ensure("O-C01-tile.observation-generation", _val(w["OBSERVATION_GENERATION"][1]) == new_prior)
         vc.ensure("O-C01-tile.lower-bounds", vc.And(*[_val(w[s][0]) == _val(prior) for s in w]))
     else:
-        # native: the same quantities computed by the real classes
+        # native replay: the real stepForward on a real clock (built without its constructor, which only writes epoch rows), collaborators patched as above
         import datetime
-        from resonaate.physics.time.stardate import JulianDate, ScenarioTime, datetimeToJulianDate
-        from resonaate.physics.constants import SEC2DAYS
+        from resonaate.physics.time.stardate import ScenarioTime, datetimeToJulianDate
+        from resonaate.scenario.clock import ScenarioClock
         start = datetime.datetime(2018, 1, 1) + datetime.timedelta(seconds=vc.int("start_s", 0, 86400 * 1500))
-        jd0 = datetimeToJulianDate(start)
-        vc.assume(k * dt <= 10 ** 7)
-        t = ScenarioTime(k * dt)
-        prior = t.convertToJulianDate(jd0)
-        import inspect
-        import resonaate.scenario.scenario as scmod
-        src = inspect.getsource(scmod.Scenario.stepForward)
-        new_prior = (t + ScenarioTime(dt)).convertToJulianDate(jd0)
-        if "self.clock.time + self.clock.dt_step" in src:
-            next_jd = JulianDate(float((t + ScenarioTime(dt)).convertToJulianDate(jd0)))
-        else:
-            next_jd = JulianDate(float(prior) + ScenarioTime(dt) * SEC2DAYS)
-        ok = float(next_jd) == float(new_prior)
-        vc.ensure("O-C01-tile.scenario-step", ok)
-        vc.ensure("O-C01-tile.agent-propagation", ok)
-        vc.ensure("O-C01-tile.observation-generation", True)
-        vc.ensure("O-C01-tile.lower-bounds", True)
+        k = k % (10 ** 7 // dt + 1)
+        clock = object.__new__(ScenarioClock)
+        clock.__dict__.update(datetime_start=start, julian_date_start=datetimeToJulianDate(start), time=ScenarioTime(k * dt), dt_step=ScenarioTime(dt))
+        prior = clock.julian_date_epoch
+        log = []
+        tas = {1: SF.Agent(log, "T", 1)}
+        vc.install(SC + "@getRelevantEvents", lambda db, scope, lb, ub, scope_instance_id=None: (log.append(("window", scope.name, lb, ub)), [])[1])
+        vc.install(SC + "@handleRelevantEvents", lambda inst, db, scope, lb, ub, logger, scope_instance_id=None: log.append(("window", scope.name, lb, ub)))
+        vc.install(SC + "@PropagateRegistration", lambda a: a)
+        vc.install(SC + "@EstPredictRegistration", lambda a: a)
+        vc.install(SC + "@EstUpdateRegistration", lambda *a: a)
+        vc.install(SC + "@ray", SF.NS(put=lambda x: x))
+        vc.install(SC + "@EventStack", SF.NS(logAndFlushEvents=lambda: None))
+        scn = vc.new(SC + "Scenario", current_julian_date=prior, clock=clock, database="DB", logger=SF.NullLogger(), target_agents=tas, _sensor_agents={}, _estimate_agents={},
+                     _agent_propagator=SF.Executor(log, "p"), _estimate_predictor=SF.Executor(log, "q"), _estimate_updater=SF.Executor(log, "u"),
+                     _ephem_importer=None, scenario_config=SF.NS(propagation=SF.NS(truth_simulation_only=False)), _tasking_engines={},
+                     _target_store={}, _sensor_store={}, _estimate_store={})
+        scn.stepForward()
+        new_prior = float(scn.current_julian_date)
+        w = {e[1]: (e[2], e[3]) for e in log if e[0] == "window"}
+        vc.ensure("O-C01-tile.scenario-step", float(w["SCENARIO_STEP"][1]) == new_prior)
+        vc.ensure("O-C01-tile.agent-propagation", float(w["AGENT_PROPAGATION"][1]) == new_prior)
+        vc.ensure("O-C01-tile.observation-generation", float(w["OBSERVATION_GENERATION"][1]) == new_prior)
+        vc.ensure("O-C01-tile.lower-bounds", all(float(w[s_][0]) == float(prior) for s_ in w) and new_prior == float(clock.julian_date_epoch))
 
 
 @obligation("C01", "mono", ensures=["O-C01-mono"], fns=[SD + "ScenarioTime.convertToJulianDate", CK + "ScenarioClock.julian_date_epoch"], mode="F", assumes=C05.FASSUME,
